@@ -202,7 +202,11 @@ def render_script(case):
 
 
 # ---------------------------------------------------------------- oracle
+RAISED = [0]
+
+
 def model(case):
+    RAISED[0] = 0
     """Return (events, expected): events = list of emitted state_changed (idx, ent, old, new);
     expected[dec] = ordered list of expected runs."""
     state = {e: None for e in ENTS}
@@ -237,7 +241,13 @@ def model(case):
                     if any(X.any_change_matches(n, ent, old, new) for n in anys):
                         q = True
                     elif exprs and any(X.name_changed(w, ent, old, new) for w in watched):
-                        q = any(X.truth(e, ev["env"], ent, old) for e in exprs)
+                        try:
+                            # several expression strings are evaluated as any([e1, e2, ...]): all of them, in order
+                            q = any([X.truth(e, ev["env"], ent, old) for e in exprs])
+                        except X.ExprRaises:
+                            # the whole evaluation is abandoned: not true, reported, and the trigger lives on
+                            q = False
+                            RAISED[0] += 1
                 if q:
                     pairs_q += 1
                     kw = {"trigger_type": "state", "var_name": ent, "value": new, "old_value": old, "context": f"ev{ev['i']}"}
@@ -330,7 +340,7 @@ def run_case(case):
     serials = [r["task"] for r in runs]
     if len(serials) != len(set(serials)):
         viol.append({"mech": "runs_share_task", "msg": "two runs recorded in the same task"})
-    errs = [r for r in w.logs(level="ERROR")]
+    errs = [r for r in w.logs(level="ERROR") if not (RAISED[0] and "ZeroDivisionError" in r["msg"])]
     if errs:
         viol.append({"mech": "unexpected_error_log", "msg": str(errs[:3])})
     if w.escapes:
